@@ -1,5 +1,6 @@
 import BareModel.ExprParse
 import BareProofs.C10Lemmas
+import BareProofs.C02Lemmas
 
 /-!
 # C10 — white space and the expression parser: lemmas
@@ -1306,23 +1307,7 @@ theorem gap_char (ok : GapOK ws ws' q) (c : Char) (hc : ord c = true) {t t' : Li
     simp [this, ORel]
 
 theorem word_ord (c : Char) (h : isWord c = true) : ord c = true := by
-  have hn : (48 ≤ c.toNat ∧ c.toNat ≤ 57) ∨ (65 ≤ c.toNat ∧ c.toNat ≤ 90) ∨ (97 ≤ c.toNat ∧ c.toNat ≤ 122) ∨ c = '_' := by
-    by_cases hu : c = '_'
-    · exact Or.inr (Or.inr (Or.inr hu))
-    · simp only [isWord, isIdStart, isDigit, Bool.or_eq_true, Bool.and_eq_true, decide_eq_true_eq, beq_iff_eq, hu,
-        or_false] at h
-      omega
-  have hs : isPySpace c = false := by
-    cases hsp : isPySpace c with
-    | false => rfl
-    | true =>
-      exfalso
-      simp only [isPySpace, Bool.or_eq_true, Bool.and_eq_true, decide_eq_true_eq, beq_iff_eq] at hsp
-      rcases hn with h1 | h1 | h1 | rfl
-      · omega
-      · omega
-      · omega
-      · revert hsp; decide
+  have hs : isPySpace c = false := C02.word_not_space h
   have hsp : special c = false := by
     cases hq : special c with
     | false => rfl
@@ -1333,10 +1318,10 @@ theorem word_ord (c : Char) (h : isWord c = true) : ord c = true := by
   simp [ord, hs, hsp]
 
 theorem idStart_ord (c : Char) (h : isIdStart c = true) : ord c = true :=
-  word_ord c (by simp [isWord, h])
+  word_ord c (C02.idStart_word h)
 
 theorem digit_ord (c : Char) (h : isDigit c = true) : ord c = true :=
-  word_ord c (by simp [isWord, h])
+  word_ord c (C02.digit_word h)
 
 theorem gap_variable (ok : GapOK ws ws' q) {t t' : List Char} (h : GapR ws ws' q t t') :
     ORel (GapR ws ws' q) (scanVariable t) (scanVariable t') := by
